@@ -266,6 +266,9 @@ def C3(ctx: Ctx) -> RuleResult:
             continue
         if o.value == value:
             ident_ok = True
+            enum_tested = any((not pol) and _isinstance_of(t, value, {'enum.Enum', 'Enum'}) for t, pol in gs)
+            if not enum_tested:
+                r.fail(f'{ser.name}:identity-guard', f'a value is passed through unchanged on a path that did not rule out Enum members: {desc} (enums nested in tuples / definitions would reach json.dumps)', ser.where)
             # math.* must not be evaluated on non-floats on the way here
             for t, pol in gs:
                 for c in _calls(t, lambda c: isinstance(c.func, Ext) and c.func.name.startswith('math.')):
@@ -282,7 +285,43 @@ def C3(ctx: Ctx) -> RuleResult:
         r.fail(f'{ser.name}:identity-missing', 'no path passes ordinary values through', ser.where)
     # closure of field types
     _closure(ctx, r)
+    _stored_enum_members(ctx, r)
     return r
+
+
+def _stored_enum_members(ctx: Ctx, r: RuleResult):
+    """no parser callback stores a member of an enum with non-int/str values in an AST field (its .value would bypass the
+    non-finite mapping: the serializer's Enum branch returns .value as is)"""
+    from .rules_flows import callback_outcomes
+    from .rules_grammar import transformer_methods
+    from .terms import New, Sub
+    methods, _ = transformer_methods(ctx)
+    for name in methods:
+        if name.startswith('_'):
+            continue
+        try:
+            fi, outs, _p = callback_outcomes(ctx, name)
+        except AnalysisError:
+            continue
+        for o in outs:
+            for t in ([o.value] if o.value is not None else []):
+                for x in walk(t):
+                    if isinstance(x, New):
+                        for fname, v in x.fields:
+                            enum = None
+                            if isinstance(v, Sub) and isinstance(v.base, ClassRef):
+                                enum = v.base.name
+                            elif isinstance(v, EnumMember):
+                                enum = v.cls
+                            if enum is None:
+                                continue
+                            ci = ctx.model.classes.get(enum)
+                            if ci is None or not ci.is_enum:
+                                continue
+                            vals = [ctx.ev.enum_value(EnumMember(enum, m), 0) for m in ci.enum_members]
+                            nonjson = [v2 for v2 in vals if not ((isinstance(v2, Const) and isinstance(v2.value, (int, str)) and not isinstance(v2.value, float)) or (isinstance(v2, Call) and isinstance(v2.func, Ext) and v2.func.name.endswith('auto')))]
+                            if nonjson:
+                                r.fail(f'{name}:{x.cls}.{fname}:enum-member', f'callback {name} stores a member of {enum} (values such as {nonjson[0]!r}) in {x.cls}.{fname}: the serializer maps Enum -> .value without the non-finite check, so INF/NAN are printed as Infinity/NaN', fi.where)
 
 
 def _isinstance_of(t: Term, v: Term, names: Set[str]) -> bool:
